@@ -36,9 +36,11 @@ func runC20(r *run) {
 				case 4:
 					ops = append(ops, "X:-")
 				case 5:
-					ops = append(ops, "X:"+hxe(nm))
+					// names are cached under the name the first loader resolves them to, however
+					// they are spelled in the call
+					ops = append(ops, "X:"+hxe(g.pick([]string{nm, "./" + nm, "x/../" + nm})))
 				case 6:
-					ops = append(ops, "X:"+hxe(nm)+","+hxe(names[g.intn(len(names))]))
+					ops = append(ops, "X:"+hxe(g.pick([]string{nm, "./" + nm}))+","+hxe(names[g.intn(len(names))]))
 				case 7:
 					ops = append(ops, "D:"+g.pick([]string{"0", "1"}))
 				case 8:
